@@ -274,6 +274,10 @@ class App:
                         return await asyncio.wait_for(go(), NO_REPLY_WAIT)
                     except asyncio.TimeoutError:
                         pass
+                    except (asyncio.IncompleteReadError, ConnectionError):
+                        # (hand-written requests: the connection was closed, twice, without a complete reply - no reply either)
+                        if not variant.startswith('raw-'):
+                            raise
                     try:
                         control = json.dumps({'jsonrpc': '2.0', 'id': 'control', 'method': 'which'}).encode()
                         cs, _, cb = await asyncio.wait_for(go(self.paths['root'], 'application/json', control, 'plain'), NO_REPLY_WAIT)
